@@ -4,6 +4,7 @@ import (
 	"errors"
 	"os"
 	"syscall"
+	"time"
 
 	"github.com/fsnotify/fsnotify"
 )
@@ -16,6 +17,7 @@ type inode struct {
 	id    int
 	data  []byte
 	nlink int
+	mtime int64 // simulated ns of the last modification
 }
 
 type simFile struct {
@@ -185,7 +187,7 @@ func (s *Sim) FSCreate(path string, data []byte) {
 		return
 	}
 	nextIno++
-	s.files = append(s.files, &simFile{path: path, ino: &inode{id: nextIno, data: rawCopy(data), nlink: 1}})
+	s.files = append(s.files, &simFile{path: path, ino: &inode{id: nextIno, data: rawCopy(data), nlink: 1, mtime: s.now}})
 }
 
 // FSTruncate is open(O_TRUNC) on an existing file.
@@ -198,6 +200,7 @@ func (s *Sim) FSTruncate(path string) {
 		return
 	}
 	f.ino.data = f.ino.data[:0]
+	f.ino.mtime = s.now
 	s.push(f.ino, fsnotify.Write, false)
 	s.pushDir(path, fsnotify.Write)
 }
@@ -211,6 +214,7 @@ func (s *Sim) FSAppend(path string, chunk []byte) {
 		return
 	}
 	f.ino.data = rawAppend(f.ino.data, chunk)
+	f.ino.mtime = s.now
 	s.push(f.ino, fsnotify.Write, false)
 	s.pushDir(path, fsnotify.Write)
 }
@@ -231,7 +235,13 @@ func (s *Sim) FSChmod(path string) {
 func (s *Sim) FSRenameOver(path string, data []byte) {
 	f := s.lookup(path)
 	nextIno++
-	n := &inode{id: nextIno, data: rawCopy(data), nlink: 1}
+	n := &inode{id: nextIno, data: rawCopy(data), nlink: 1, mtime: s.now}
+	if s.KeepMtime {
+		// cp -p / rsync -t: the new file carries the old modification time
+		if f != nil {
+			n.mtime = f.ino.mtime
+		}
+	}
 	if f == nil {
 		s.files = append(s.files, &simFile{path: path, ino: n})
 		s.pushDir(path, fsnotify.Create)
@@ -296,48 +306,9 @@ func ReadFile(name string) ([]byte, error) {
 	if s == nil {
 		return os.ReadFile(name)
 	}
-	f := s.lookup(name)
-	isSim := f != nil
-	if !isSim {
-		for _, p := range s.simPaths {
-			if p == name {
-				isSim = true
-			}
-		}
-	}
-	if !isSim {
+	data, err := simRead(name, "open")
+	if err == errNotSim {
 		return os.ReadFile(name)
-	}
-	rec := ReadFileRec{Path: name, Step: s.Steps, Now: s.now}
-	if s.cur != nil {
-		rec.Task = s.cur.ID
-		rec.Inc = s.cur.Inc
-	}
-	var data []byte
-	var err error
-	if s.readFileErrIn > 0 {
-		s.readFileErrIn--
-		if s.readFileErrIn == 0 {
-			s.FaultsFired[FReadFileErr]++
-			err = &os.PathError{Op: "read", Path: name, Err: syscall.EIO}
-		}
-	}
-	if err == nil {
-		if f == nil {
-			err = &os.PathError{Op: "open", Path: name, Err: syscall.ENOENT}
-		} else {
-			data = rawCopy(f.ino.data)
-		}
-	}
-	if err != nil {
-		rec.Err = err.Error()
-	} else {
-		rec.Data = rawCopy(data)
-	}
-	s.ReadFileLog = append(s.ReadFileLog, rec)
-	if s.cur != nil {
-		s.Tracef("readfile", s.cur.ID, "path=%s len=%d err=%v", name, len(data), err)
-		syncPoint(s, -1)
 	}
 	return data, err
 }
@@ -511,4 +482,151 @@ var _ = errors.New
 //go:norace
 func (w *Watcher) QueuedEvents() []fsnotify.Event {
 	return append([]fsnotify.Event(nil), w.queue...)
+}
+
+// Open replaces os.Open: a simulated file is materialised as an unlinked real file holding the content at
+// this instant (so bufio.Scanner, io.ReadAll, ReadAt ... work); everything else is opened for real.
+//
+//go:norace
+func Open(name string) (*os.File, error) {
+	s := S
+	if s == nil {
+		return os.Open(name)
+	}
+	data, err := simRead(name, "open")
+	if err == errNotSim {
+		return os.Open(name)
+	}
+	if err != nil {
+		return nil, err
+	}
+	f, err := os.CreateTemp("/dev/shm", "verif-open-")
+	if err != nil {
+		return nil, err
+	}
+	os.Remove(f.Name())
+	if _, err := f.Write(data); err != nil {
+		f.Close()
+		return nil, err
+	}
+	if _, err := f.Seek(0, 0); err != nil {
+		f.Close()
+		return nil, err
+	}
+	return f, nil
+}
+
+// OpenFile replaces os.OpenFile for read-only opens of simulated files.
+//
+//go:norace
+func OpenFile(name string, flag int, perm os.FileMode) (*os.File, error) {
+	s := S
+	if s == nil || flag&(os.O_WRONLY|os.O_RDWR|os.O_CREATE|os.O_TRUNC|os.O_APPEND) != 0 || !s.isSimPath(name) {
+		return os.OpenFile(name, flag, perm)
+	}
+	return Open(name)
+}
+
+var errNotSim = errors.New("not a simulated path")
+
+//go:norace
+func (s *Sim) isSimPath(name string) bool {
+	if s.lookup(name) != nil {
+		return true
+	}
+	for _, p := range s.simPaths {
+		if p == name {
+			return true
+		}
+	}
+	return false
+}
+
+// simRead is the common read path of ReadFile and Open: content at this instant, injected errors, the read log.
+//
+//go:norace
+func simRead(name, op string) ([]byte, error) {
+	s := S
+	if !s.isSimPath(name) {
+		return nil, errNotSim
+	}
+	f := s.lookup(name)
+	rec := ReadFileRec{Path: name, Step: s.Steps, Now: s.now}
+	if s.cur != nil {
+		rec.Task = s.cur.ID
+		rec.Inc = s.cur.Inc
+	}
+	var data []byte
+	var err error
+	if s.readFileErrIn > 0 {
+		s.readFileErrIn--
+		if s.readFileErrIn == 0 {
+			s.FaultsFired[FReadFileErr]++
+			err = &os.PathError{Op: "read", Path: name, Err: syscall.EIO}
+		}
+	}
+	if err == nil {
+		if f == nil {
+			err = &os.PathError{Op: op, Path: name, Err: syscall.ENOENT}
+		} else {
+			data = rawCopy(f.ino.data)
+		}
+	}
+	if err != nil {
+		rec.Err = err.Error()
+	} else {
+		rec.Data = rawCopy(data)
+	}
+	s.ReadFileLog = append(s.ReadFileLog, rec)
+	if s.cur != nil {
+		s.Tracef("readfile", s.cur.ID, "path=%s len=%d err=%v", name, len(data), err)
+		syncPoint(s, -1)
+	}
+	return data, err
+}
+
+type simFileInfo struct {
+	name  string
+	size  int64
+	mtime time.Time
+}
+
+//go:norace
+func (i simFileInfo) Name() string { return i.name }
+
+//go:norace
+func (i simFileInfo) Size() int64 { return i.size }
+
+//go:norace
+func (i simFileInfo) Mode() os.FileMode { return 0o644 }
+
+//go:norace
+func (i simFileInfo) ModTime() time.Time { return i.mtime }
+
+//go:norace
+func (i simFileInfo) IsDir() bool { return false }
+
+//go:norace
+func (i simFileInfo) Sys() any { return nil }
+
+// Stat replaces os.Stat / os.Lstat.
+//
+//go:norace
+func Stat(name string) (os.FileInfo, error) {
+	s := S
+	if s == nil || !s.isSimPath(name) {
+		return os.Stat(name)
+	}
+	f := s.lookup(name)
+	if f == nil {
+		return nil, &os.PathError{Op: "stat", Path: name, Err: syscall.ENOENT}
+	}
+	base := name
+	for i := len(name) - 1; i >= 0; i-- {
+		if name[i] == '/' {
+			base = name[i+1:]
+			break
+		}
+	}
+	return simFileInfo{name: base, size: int64(len(f.ino.data)), mtime: time.Unix(0, s.Cfg.EpochNs+f.ino.mtime).UTC()}, nil
 }
